@@ -231,8 +231,22 @@ def rule_consumed_count(ctx, idx, rid="R09.4"):
     if f is None:
         raise EngineError("anchor: TagScanner::get_consumed_byte_count")
     LEN = 9
-    it = Interp(idx, helpers={"min": lambda itp, args, env: min(args), ("method", "len"): lambda itp, rv, args, env: LEN,
-                              ("method", "min"): lambda itp, rv, args, env: min([rv] + list(args))})
+    def _omin(a, b):          # Option / integer minimum: None < Some(_)
+        return None if a is None or b is None else min(a, b)
+    def _omax(a, b):
+        return b if a is None else (a if b is None else max(a, b))
+    it = Interp(idx, helpers={"min": lambda itp, args, env: min(args), "max": lambda itp, args, env: max(args),
+                              ("method", "len"): lambda itp, rv, args, env: LEN,
+                              ("method", "min"): lambda itp, rv, args, env: _omin(rv, args[0]),
+                              ("method", "max"): lambda itp, rv, args, env: _omax(rv, args[0]),
+                              ("method", "or"): lambda itp, rv, args, env: rv if rv is not None else args[0],
+                              ("method", "and"): lambda itp, rv, args, env: args[0] if rv is not None else None,
+                              ("method", "xor"): lambda itp, rv, args, env: (rv if args[0] is None else (args[0] if rv is None else None)),
+                              ("method", "unwrap_or"): lambda itp, rv, args, env: rv if rv is not None else args[0],
+                              ("method", "unwrap_or_default"): lambda itp, rv, args, env: rv if rv is not None else 0,
+                              ("method", "is_some"): lambda itp, rv, args, env: rv is not None,
+                              ("method", "is_none"): lambda itp, rv, args, env: rv is None})
+    undecidable = []
     for ts in (None, 3, 5, 4):
         for sq in (None, 5, 3, 4):
             key = "scanner|tag_start=%s|seq=%s" % (ts, sq)
@@ -241,9 +255,15 @@ def rule_consumed_count(ctx, idx, rid="R09.4"):
                 v = it.call_fn(f, [Sym("input")], self_env={"self.tag_start": ts, "self.ch_sequence_matching_start": sq})
             except EngineError as e:
                 v = "not evaluable (%s)" % str(e)[:60]
+            if not isinstance(v, int) or isinstance(v, bool):
+                undecidable.append((ts, sq, repr(v)[:80]))
+                r.inst(key, nontrivial=False)
+                continue
             r.inst(key, nontrivial=(ts is not None and sq is not None), sample={"tag_start": ts, "seq_start": sq, "consumed": v} if (ts, sq) in ((None, None), (5, 3), (3, 5)) else None)
             if v != want:
                 r.violate(key, f"TagScanner::get_consumed_byte_count with tag_start={ts}, ch_sequence_matching_start={sq}, input.len()={LEN} yields {v}, expected {want}: bytes from the earlier mark on must stay buffered (otherwise they are released and the lexer later starts in the middle of a tag), and nothing else", "src/parser/tag_scanner/mod.rs")
+    if undecidable and not r.violations:
+        raise EngineError(rid + ": TagScanner::get_consumed_byte_count could not be evaluated over the finite domain (%s)" % (undecidable[0],))
     lx = impl_methods(idx, "Lexer", "StateMachine").get("get_consumed_byte_count")
     if lx is None:
         raise EngineError("anchor: Lexer::get_consumed_byte_count")
@@ -252,6 +272,8 @@ def rule_consumed_count(ctx, idx, rid="R09.4"):
         v = Interp(idx).call_fn(lx, [Sym("input")], self_env={"self.lexeme_start": 7})
     except EngineError as e:
         v = "not evaluable (%s)" % str(e)[:60]
+    if not isinstance(v, (int, str)) or isinstance(v, bool):
+        v = "not an integer (%s)" % repr(v)[:60]
     if v != 7:
         r.violate("lexer", f"Lexer::get_consumed_byte_count yields {v} for lexeme_start=7: with handlers exactly the unfinished token must be held back", "src/parser/lexer/mod.rs")
     return r
